@@ -897,7 +897,16 @@ Proof.
   destruct p; try reflexivity; try (rewrite E3; reflexivity).
   destruct k; try reflexivity; rewrite ?E3, ?E4; reflexivity.
 Qed.
-(* the code as it is after D76: refuted by a too-short node_values key that names a circuit (finding F4) *)
+Lemma guard_true_when_fixed : fixed_F3 = true -> fixed_F4 = true -> forall p, guard p = true.
+Proof.
+  intros E3 E4 p. unfold guard, guard_path_not_attr, guard_node_value_not_circuit.
+  destruct p; try reflexivity; try (rewrite E3; reflexivity).
+  destruct k; try reflexivity; rewrite ?E3, ?E4; reflexivity.
+Qed.
+Theorem malformed_is_loud_when_fixed : fixed_F3 = true -> fixed_F4 = true ->
+  forall p, WFprobe p -> ~ WellFormed p -> loud_enough p (impl p).
+Proof. intros E3 E4 p W. apply (malformed_is_loud p W), (guard_true_when_fixed E3 E4). Qed.
+(* the code as it was after D76 and before D79: refuted by a too-short node_values key that names a circuit (finding F4) *)
 Definition F4_hnet : hnetwork := [(["c1"; "a"], [("o1", ["g"])]); (["c1"; "b"], [("o1", ["g"])])].
 Definition F4_probe : probe := PHier HNodeValue 1 F4_hnet ["c1"; "o1"; "g"].
 Theorem C20_refuted_short_node_value : fixed_F4 = false ->
